@@ -214,8 +214,23 @@ static void property(Src& s, Case& c) {
   std::string valid = render(s, valid_mv, plain);
 
   std::string text, what;
-  size_t mode = s.weighted({15, 50, 20, 15});
-  if (mode == 2) {
+  size_t mode = s.weighted({15, 50, 20, 15, 6});
+  if (mode == 4) {  // very long number spellings (the big-decimal fallback works on an 800-digit scratch buffer)
+    static const int lens[] = {20, 100, 400, 500, 600, 799, 800, 801, 1000, 1500, 3000};
+    std::string digits;
+    size_t nd = (size_t)lens[s.index(11)];
+    for (size_t i = 0; i < nd; i++) digits.push_back((char)('0' + s.pick(i == 0 ? 1 : 0, 9)));
+    std::string num;
+    switch (s.weighted({3, 3, 2, 2})) {
+      case 0: num = "0." + std::string((size_t)s.pick(0, 400), '0') + digits; break;
+      case 1: num = digits + "e-" + std::to_string(s.pick(0, 2500)); break;
+      case 2: num = digits.substr(0, 1) + "." + digits.substr(1) + "e" + std::to_string(s.range(-340, 310)); break;
+      default: num = digits; break;
+    }
+    if (s.coin(1, 4)) num = "-" + num;
+    text = s.coin(1, 2) ? "{\"k\":[" + num + ",true]}" : num;
+    what = "long-number";
+  } else if (mode == 2) {
     text = nesting_text(s, s.coin(1, 8) ? 1000 : 60);
     what = "nesting";
   } else if (mode == 3) {  // containers with many children, failure injected at some depth
